@@ -721,6 +721,8 @@ static int vnadata_save_common(vnadata_t *vdp, FILE *fp, const char *filename,
     const double complex *z0_vector = NULL;
     double z0_touchstone = 50.0;
     vnadata_t *conversions[VPT_NTYPES];
+    vnadata_filetype_t saved_filetype;
+    bool default_format = false;
 
     /*
      * Validate pointer.
@@ -735,6 +737,7 @@ static int vnadata_save_common(vnadata_t *vdp, FILE *fp, const char *filename,
 	return -1;
     }
     aprecision = MAX(vdip->vdi_dprecision, 3);
+    saved_filetype = vdip->vdi_filetype;
 
     /*
      * Init conversions to NULL.
@@ -824,6 +827,7 @@ static int vnadata_save_common(vnadata_t *vdp, FILE *fp, const char *filename,
      * If no formats have been given, default to "ri".
      */
     if (vdip->vdi_format_count == 0) {
+	default_format = true;
 	if (_vnadata_set_simple_format(vdip, type,
 		    VNADATA_FORMAT_REAL_IMAG) == -1) {
 	    goto out;
@@ -1065,6 +1069,17 @@ static int vnadata_save_common(vnadata_t *vdp, FILE *fp, const char *filename,
     }
 
     /*
+     * If vnadata_save, open the output file.
+     */
+    if (function == vnadata_save_name) {
+	if ((fp = fopen(filename, "w")) == NULL) {
+	    _vnadata_error(vdip, VNAERR_SYSTEM, "fopen: %s: %s",
+		    filename, strerror(errno));
+	    goto out;
+	}
+    }
+
+    /*
      * Go through the format vector and fix up any instances of "ri",
      * "ma" and "db" without parameter types, taking the parameter type
      * from the vnadata_t structure.
@@ -1084,17 +1099,6 @@ static int vnadata_save_common(vnadata_t *vdp, FILE *fp, const char *filename,
 	    if (_vnadata_update_format_string(vdip) == -1) {
 		goto out;
 	    }
-	}
-    }
-
-    /*
-     * If vnadata_save, open the output file.
-     */
-    if (function == vnadata_save_name) {
-	if ((fp = fopen(filename, "w")) == NULL) {
-	    _vnadata_error(vdip, VNAERR_SYSTEM, "fopen: %s: %s",
-		    filename, strerror(errno));
-	    goto out;
 	}
     }
 
@@ -1521,6 +1525,20 @@ out:
     if (function == vnadata_save_name && fp != NULL) {
 	(void)fclose(fp);
 	fp = NULL;
+    }
+
+    /*
+     * A refused save (or check) leaves the file type and format of the
+     * vnadata_t structure as they were.
+     */
+    if (rc == -1) {
+	vdip->vdi_filetype = saved_filetype;
+	if (default_format) {
+	    free((void *)vdip->vdi_format_vector);
+	    vdip->vdi_format_vector = NULL;
+	    vdip->vdi_format_count = 0;
+	    (void)_vnadata_update_format_string(vdip);
+	}
     }
     for (int i = 0; i < VPT_NTYPES; ++i) {
 	vnadata_free(conversions[i]);
